@@ -15,7 +15,7 @@ contract(M + "_get_bounds", props=["C02", "C15"],
          ensures=["result[0] <= bden(P)", "bden(P) <= result[1]",
                   "implies(allconst(P), True)"])
 
-contract(M + "_special_constraints_eq_zero", props=["C02", "C08"],
+contract(M + "_special_constraints_eq_zero", props=["C02", "C03", "C06", "C08"],
          instances=[{"pcbo": "model:PCBO", "P": "model:PUBO", "lam": "real"}],
          requires=["wf(pcbo)", "wf(P)", "lam > 0", "distinct(pcbo, P)"],
          returns="bool", modifies=["pcbo"],
@@ -51,6 +51,8 @@ def _ops(n):
             c = ["label"] * n
             c[pos] = k
             combos.append(tuple(c))
+    if n == 2:
+        combos.append(("model:PUBO", "model:PUBO"))      # OR(AND(*k1), AND(*k2)) in the special forms of <=
     return ["tuple:" + ",".join(c) for c in combos]
 
 
@@ -120,12 +122,15 @@ _gate1("add_constraint_eq_BUFFER", "opden(a) == opden(b)", two=True)
 contract("qubovert.utils._binary_helpers:num_bits", props=["C02"], trusted=True,
          instances=[{"val": "real", "log_trick": "bool"}],
          raises=[("ValueError", "val < 0")], returns="int",
-         ensures=["result >= 0", "slackcap(result, log_trick) >= val", "implies(val == 0, result == 0)"],
+         ensures=["result >= 0", "slackcap(result, log_trick) >= val", "implies(val == 0, result == 0)",
+                  "implies(not log_trick, result < val + 1)"],      # unary: exactly ceil(val)
          note="L8: 2^bit_length(ceil v) - 1 >= v, resp. ceil(v) >= v; int.bit_length / math.ceil are outside qvc")
 
 _N = "(self._ancilla - old(self._ancilla))"
-contract(M + "_special_constraints_le_zero", props=["C02"], trusted=True,
+contract(M + "_special_constraints_le_zero", props=["C02", "C03", "C08"],
          instances=[{"pcbo": "model:PCBO", "P": "model:PUBO", "lam": "real", "log_trick": "bool", "bounds": "tuple:real,real"}],
+         requires=["wf(pcbo)", "wf(P)", "lam > 0", "distinct(pcbo, P)", "isint(bden(P))", "encloses(bounds, bden(P))",
+                   "int_at_origin(P)"],
          returns="bool", modifies=["pcbo"],
          ensures=["implies(not result, same_store(pcbo, old(store(pcbo))) and pcbo._ancilla == old(pcbo._ancilla))",
                   "implies(result, den(pcbo) - old(den(pcbo)) >= 0)",
@@ -133,8 +138,14 @@ contract(M + "_special_constraints_le_zero", props=["C02"], trusted=True,
                   "implies(result and bden(P) <= 0 and pcbo._ancilla == old(pcbo._ancilla), den(pcbo) == old(den(pcbo)))",
                   "implies(result and log_trick, pcbo._ancilla == old(pcbo._ancilla))",
                   "pcbo._ancilla >= old(pcbo._ancilla)", "wf(pcbo)", "implies(old(bk(pcbo)), bk(pcbo))"],
-         note="the four syntactic special forms of <= (sum <= 1, unary slack, OR form, x <= y) read key order and exact "
-              "coefficient patterns: contract assumed, checked by the bounded clause C02.special_forms")
+         loops={1: {"invariant": "bden(ancillas) == slackval(pre(pcbo._ancilla), visited, False) and "
+                                 "pcbo._ancilla == pre(pcbo._ancilla) + visited and wf(ancillas) and "
+                                 "slackval(pre(pcbo._ancilla), visited, False) >= 0 and "
+                                 "slackval(pre(pcbo._ancilla), visited, False) <= slackcap(visited, False) and "
+                                 "slack_next(pre(pcbo._ancilla), visited, False) == slack_next(pre(pcbo._ancilla), visited, False)",
+                    "modifies": ["pcbo._ancilla"]}},
+         note="the four syntactic special forms of <= (sum <= 1, unary slack, OR form, x <= y): read key order and "
+              "exact coefficient patterns of small models (L11-enum, L12-count)")
 
 
 def _ineq(name, holds, loops=None):
@@ -143,7 +154,9 @@ def _ineq(name, holds, loops=None):
                          "suppress_warnings": "bool"}
                         for p in ("termdict", "model:PUBO", "model:PCBO") for b in ("none", "tuple:real,real", "tuple:none,real")],
              requires=["wf(self)", "lam > 0", "isint(bden(P))", "encloses(bounds, bden(P))",
-                       "wf(P) if not typeis(P, 'dict') else True", "distinct(self, P)"],
+                       "wf(P) if not typeis(P, 'dict') else True", "distinct(self, P)",
+                       # P is integer-valued (the property's premise), in particular at the origin: its constant term
+                       "int_at_origin(P)"],
              returns="param:self", modifies=["self"],
              ensures=[_F + " >= 0",
                       "implies(not (%s) and not warned_unsat(), %s >= lam)" % (holds, _F),
@@ -184,7 +197,7 @@ contract(M + "PCBO.add_constraint_ne_zero", props=["C02", "C16", "C19"], taint=[
                      "suppress_warnings": "bool"}
                     for p in ("termdict", "model:PUBO", "model:PCBO") for b in ("none", "tuple:real,real", "tuple:none,real")],
          requires=["wf(self)", "lam > 0", "isint(bden(P))", "encloses(bounds, bden(P))",
-                   "wf(P) if not typeis(P, 'dict') else True", "distinct(self, P)"],
+                   "wf(P) if not typeis(P, 'dict') else True", "distinct(self, P)", "int_at_origin(P)"],
          returns="param:self", modifies=["self"],
          ensures=[_F + " >= 0",
                   "implies(bden(P) == 0 and not warned_unsat(), %s >= lam)" % _F,
